@@ -49,7 +49,12 @@ fn complete_frame(
         FrameType::PathResponse => map(be_path_response_frame, Frame::PathResponse).parse(input),
         FrameType::HandshakeDone => Ok((input, Frame::HandshakeDone(HandshakeDoneFrame))),
         FrameType::NewToken => map(be_new_token_frame, Frame::NewToken).parse(input),
-        FrameType::Ack(ecn) => map(ack_frame_with_ecn(ecn), Frame::Ack).parse(input),
+        // an ACK frame whose ranges reach below packet number 0 is a FRAME_ENCODING_ERROR
+        FrameType::Ack(ecn) => map(
+            nom::combinator::verify(ack_frame_with_ecn(ecn), AckFrame::is_well_formed),
+            Frame::Ack,
+        )
+        .parse(input),
         FrameType::ResetStream => {
             map(be_reset_stream_frame, |f| Frame::StreamCtl(f.into())).parse(input)
         }
